@@ -99,6 +99,21 @@ claim("C18", SRV + "C18: history counters FairWindow / FairBound are invariants 
       "violates them); the order in which calls reach the real service is validated against the same counters.",
       TRUST + "calls are injected as whole frames in the fairness scenarios (readiness = availability)",
       "TLA+ model checking (TLC) with fairness history variables + TLC trace validation of service call order", "4/C18")
+claim("C04",
+      "The classification of a reply is specified as a decision table over five isolated observations of the frame "
+      "(ReplyClassify.tla); TLC checks that the table is total, that the code's three-way decode conforms and never maps "
+      "a frame with an `error` member to success (the pinned permissive arm is shown to violate it). A systematic frame "
+      "corpus x 6 (parameter type, error type) targets x receive_reply and call_method is executed and every case is "
+      "validated by TLC against the table, including the payload handed to the caller.",
+      TRUST + "the five observations are isolated serde_json decodes of the same frame",
+      "TLA+ decision-table model (TLC) + TLC validation of per-case traces from the real decode paths", "4/C04")
+claim("C05",
+      "Envelope.tla states the envelope laws over abstract member sequences; TLC checks them for all flag sets, flag "
+      "placements and unknown members. Real encodings/decodings of Call<M>, derived error enums, the standard service "
+      "types, Reply<T> and generated proxies are projected to member names/flags and validated by TLC against the same "
+      "operators, including the three spellings of 'no parameters' at four call sites.",
+      TRUST + "member order is read from the JSON text; the method type decoded alone is the pass-through reference",
+      "TLA+ model checking (TLC) of envelope laws + TLC validation of projected encode/decode cases", "4/C05")
 
 
 def main():
